@@ -1,6 +1,8 @@
 package main
 
 import (
+	"testing/iotest"
+
 	"bytes"
 	"encoding/hex"
 	"fmt"
@@ -14,6 +16,7 @@ import (
 	"time"
 
 	"github.com/rs/zerolog/diode/verifh/evid"
+	"github.com/rs/zerolog/diode/verifh/gen"
 	"github.com/rs/zerolog/diode/verifh/rng"
 	"github.com/rs/zerolog/internal/cbor"
 )
@@ -90,7 +93,10 @@ func (s *c17state) guard(name string, in []byte, errPanicOK bool, fn func() erro
 			}
 		}
 		delta := allocBytes() - before
-		limit := uint64(64*len(in) + 1<<20)
+		// proportional to the input (a 9-byte float legitimately prints as ~330 digits and buffers double while they
+		// grow, hence the factor) plus a fixed allowance for readers and scratch buffers: tight for small inputs,
+		// so that a declared length of 1 MiB taken at face value already shows
+		limit := uint64(512*len(in) + 256<<10)
 		if delta > limit && !confirming {
 			// The cheap counter is lumpy (per-P allocation caches are accounted when spans are swapped or
 			// a GC cycle flushes them, up to ~1 MiB at once). Confirm with the exact, stop-the-world
@@ -110,7 +116,7 @@ func (s *c17state) guard(name string, in []byte, errPanicOK bool, fn func() erro
 			}
 		}
 		if delta > limit {
-			s.out.Violate("alloc-blowup:"+name, fmt.Sprintf("%s allocated %d bytes for a %d-byte input (limit 64*len+1MiB = %d)", name, delta, len(in), limit), s.rep())
+			s.out.Violate("alloc-blowup:"+name, fmt.Sprintf("%s allocated %d bytes for a %d-byte input (limit 512*len+256KiB = %d)", name, delta, len(in), limit), s.rep())
 		}
 		if len(in) > 0 {
 			if r := float64(delta) / float64(len(in)+1024); r > s.maxRatio {
@@ -127,13 +133,45 @@ func (s *c17state) guard(name string, in []byte, errPanicOK bool, fn func() erro
 	return err
 }
 
+var errSrc = fmt.Errorf("source failed")
+
+type failAfter struct{ n int }
+
+func (w *failAfter) Write(p []byte) (int, error) {
+	if len(p) > w.n {
+		n := w.n
+		w.n = 0
+		return n, fmt.Errorf("destination full")
+	}
+	w.n -= len(p)
+	return len(p), nil
+}
+
 var sink bytes.Buffer
 var confirming bool
 
 func (s *c17state) feed(in []byte, class string) {
 	s.begin(in, class)
 	sink.Reset()
-	s.guard("Cbor2JsonManyObjects", in, false, func() error { return cbor.Cbor2JsonManyObjects(bytes.NewReader(in), &sink) })
+	err0 := s.guard("Cbor2JsonManyObjects", in, false, func() error { sink.Reset(); return cbor.Cbor2JsonManyObjects(bytes.NewReader(in), &sink) })
+	if s.calls%3 == 0 && len(in) <= 4096 {
+		// the result must not depend on how the reader hands out the bytes; a reader or a destination that fails
+		// must not make the decoder panic either
+		var one bytes.Buffer
+		err1 := s.guard("Cbor2JsonManyObjects(one byte at a time)", in, false, func() error { one.Reset(); return cbor.Cbor2JsonManyObjects(iotest.OneByteReader(bytes.NewReader(in)), &one) })
+		if (err0 == nil) != (err1 == nil) || !bytes.Equal(one.Bytes(), sink.Bytes()) {
+			s.out.Violate("chunking-dependent", fmt.Sprintf("decoding a %d-byte input from a reader that returns one byte per Read gives (%q, err=%v), from a plain reader (%q, err=%v)", len(in), clipb(one.Bytes()), err1, clipb(sink.Bytes()), err0), s.rep())
+		}
+		k := len(in) / 2
+		s.guard("Cbor2JsonManyObjects(failing reader)", in, false, func() error {
+			cbor.Cbor2JsonManyObjects(io.MultiReader(bytes.NewReader(in[:k]), iotest.ErrReader(errSrc)), io.Discard)
+			return nil
+		})
+		s.guard("Cbor2JsonManyObjects(failing destination)", in, false, func() error {
+			cbor.Cbor2JsonManyObjects(bytes.NewReader(in), &failAfter{n: len(sink.Bytes()) / 2})
+			return nil
+		})
+	}
 	s.guard("DecodeIfBinaryToBytes", in, false, func() error { cbor.DecodeIfBinaryToBytes(in); return nil })
 	s.guard("DecodeIfBinaryToString", in, false, func() error { _ = cbor.DecodeIfBinaryToString(in); return nil })
 	s.guard("DecodeObjectToStr", in, true, func() error { _ = cbor.DecodeObjectToStr(in); return nil })
@@ -269,7 +307,7 @@ func (g *sgen) event(dst []byte) []byte {
 
 // ---- hostile generation -------------------------------------------------------------------------------
 
-var c17lens = []uint64{0, 1, 23, 24, 255, 256, 65535, 65536, 1<<31 - 1, 1 << 31, 1 << 32, 1 << 62, 1<<63 - 1, 1 << 63, math.MaxUint64}
+var c17lens = []uint64{0, 1, 23, 24, 255, 256, 65535, 65536, 1 << 20, 1 << 24, 1 << 28, 1 << 30, 1<<31 - 1, 1 << 31, 1 << 32, 1 << 62, 1<<63 - 1, 1 << 63, math.MaxUint64}
 
 func head(major byte, ai byte, arg uint64) []byte {
 	b := []byte{major<<5 | ai}
@@ -433,6 +471,26 @@ func c17(args []string) int {
 	}
 	// (2) header/argument grid under prefixes
 	s.grid()
+	// (2b) the timestamp tag over extreme numbers: the decoder turns them into a time and formats it
+	if f.Shard == 0 {
+		var fbits []uint64
+		for _, v := range []float64{math.Inf(1), math.Inf(-1), math.NaN(), math.MaxFloat64, -math.MaxFloat64, 1e19, -1e19, 9.3e18, 1e15, 253402300800, -62135596801, 5e-324, 0.999999999999, -0.5, math.Copysign(0, -1)} {
+			fbits = append(fbits, math.Float64bits(v))
+		}
+		for _, pre := range [][]byte{{0xc1}, {0x81, 0xc1}, {0xbf, 0x61, 0x74, 0xc1}, {0xd9, 0x01, 0x04, 0xc1}} {
+			for _, b := range fbits {
+				s.feed(append(append([]byte{}, pre...), head(7, 27, b)...), "timestamp-number")
+				s.feed(append(append([]byte{}, pre...), head(7, 26, uint64(math.Float32bits(float32(math.Float64frombits(b)))))...), "timestamp-number")
+				s.feed(append(append(append([]byte{}, pre...), head(7, 27, b)...), 0xff), "timestamp-number")
+				out.Count("timestamp_number_inputs", 3)
+			}
+			for _, a := range c17lens {
+				s.feed(append(append([]byte{}, pre...), head(0, 27, a)...), "timestamp-number")
+				s.feed(append(append([]byte{}, pre...), head(1, 27, a)...), "timestamp-number")
+				out.Count("timestamp_number_inputs", 2)
+			}
+		}
+	}
 	// (3) structure-aware random, nesting bombs, mutations of valid streams
 	nr := f.N(12000, 2000000)
 	g := &sgen{}
@@ -486,6 +544,47 @@ func c17(args []string) int {
 		g.r = r
 		s.cuts(g, r)
 	}
+	// (5) binary build: streams written by the real logger (every encoder entry point the program generator
+	// reaches), cut at every offset and mutated
+	if isBinaryBuild() {
+		nl := f.N(1500, 40000)
+		var hits [9]map[string]int
+		x := &gen.Exec{}
+		for i := 0; i < nl; i++ {
+			if !f.Mine(i) {
+				continue
+			}
+			p := binCase(f, i, true, &hits)
+			restore := p.S.Apply()
+			res := x.Run(p)
+			restore()
+			if res.Panic != nil {
+				continue // C01/C09's business
+			}
+			var st []byte
+			var bounds []int
+			for _, ws := range res.Writes {
+				for _, w := range ws {
+					st = append(st, w.P...)
+					bounds = append(bounds, len(st))
+				}
+			}
+			if len(st) == 0 || len(st) > 6000 {
+				continue
+			}
+			if err := cbor.Cbor2JsonManyObjects(bytes.NewReader(st), io.Discard); err != nil {
+				// whether the decoder accepts everything the logger writes is C08's question; the cut analysis needs
+				// a stream that decodes
+				out.Inconc(fmt.Sprintf("a stream written by the binary logger does not decode (%v): cut analysis skipped", err))
+				continue
+			}
+			s.cutsOf(st, bounds)
+			r := rng.New(f.Seed, 0xc17d, uint64(i))
+			s.feed(mutate(r, st, prev), "mutated-logger-stream")
+			prev = st
+			out.Count("logger_streams_cut_and_mutated", 1)
+		}
+	}
 	atomic.StoreInt64(&s.started, 0)
 	out.Count("decoder_calls", s.calls)
 	out.Count("calls_returning_error", s.errs)
@@ -506,6 +605,11 @@ func (s *c17state) cuts(g *sgen, r *rng.R) {
 		st = g.event(st)
 		bounds = append(bounds, len(st))
 	}
+	s.cutsOf(st, bounds)
+}
+
+// cutsOf decodes every prefix of a valid stream whose event boundaries are known.
+func (s *c17state) cutsOf(st []byte, bounds []int) {
 	s.begin(st, "cut-stream")
 	var full bytes.Buffer
 	if err := cbor.Cbor2JsonManyObjects(bytes.NewReader(st), &full); err != nil {
@@ -532,7 +636,7 @@ func (s *c17state) cuts(g *sgen, r *rng.R) {
 		in := st[:k]
 		s.begin(in, "cut")
 		var ob bytes.Buffer
-		err := s.guard("Cbor2JsonManyObjects", in, false, func() error { return cbor.Cbor2JsonManyObjects(bytes.NewReader(in), &ob) })
+		err := s.guard("Cbor2JsonManyObjects", in, false, func() error { ob.Reset(); return cbor.Cbor2JsonManyObjects(bytes.NewReader(in), &ob) })
 		// events wholly inside the prefix
 		var want []byte
 		boundary := k == 0
